@@ -444,7 +444,8 @@ class PLSSParser:
             # Discard the integer (first element in each 2-tuple), which would
             # only be used (elsewhere) with config setting 'sec_within'.
             for _, unused_bit in self.unused_components:
-                if len(unused_bit) >= self.MIN_REPORTABLE_UNUSED_LEN:
+                if is_reportable_unused(
+                        unused_bit, self.MIN_REPORTABLE_UNUSED_LEN):
                     flag_unused(unused_bit)
 
         if segment:
@@ -736,6 +737,38 @@ def cleanup_desc(text):
                 cull_length = len(cull_str)
                 text = text[:-cull_length]
     return text
+
+
+# Leftovers that carry no description of their own (connecting words
+# between a Twp/Rge, a section and a description).
+_CONNECTORS_ONLY = (
+    '', 'of', 'in', 'the', 'and', 'of the', 'in the',
+    'all in', 'all of', 'all in the', 'all of the',
+)
+
+
+def _only_connectors(text):
+    """
+    INTERNAL USE:
+
+    Whether a block of text is nothing but punctuation and connecting
+    words.
+    """
+    bare = ' '.join(text.strip('.,;:-–—\t\n ').lower().split())
+    return bare in _CONNECTORS_ONLY
+
+
+def is_reportable_unused(text, min_length):
+    """
+    INTERNAL USE:
+
+    Whether a block of unused text should be reported. Anything of at
+    least ``min_length`` characters is, as before; a shorter block is
+    too, unless it is nothing but punctuation and connecting words (so
+    that a short but meaningful ``'E/2'`` or ``'ALL'`` is not silently
+    dropped).
+    """
+    return len(text) >= min_length or not _only_connectors(text)
 
 
 class ChunkParser:
@@ -1134,8 +1167,10 @@ def rebuild_sec_within(
     orig_desc = desc
     while unused_components:
         i, unused = unused_components.pop(0)
-        unused = cleanup_desc(unused)
-        if len(unused) >= min_length:
+        raw_unused = unused
+        unused = cleanup_desc(raw_unused)
+        if len(unused) >= min_length or (
+                unused and not _only_connectors(raw_unused)):
             if i == 0:
                 # Unused description came before the captured description.
                 desc = f"{unused} {desc}"
